@@ -588,16 +588,19 @@ impl From<Vec<usize>> for Seq<text::Dna> {
 /// **Unstable** construct a `Seq` from a bitslice. This may change in the future.
 impl<A: Codec> From<&Bs> for Seq<A> {
     fn from(bs: &Bs) -> Self {
+        let mut bv: Bv = bs.into();
+        bv.force_align();
         Seq {
             _p: PhantomData,
-            bv: bs.into(),
+            bv,
         }
     }
 }
 
 /// **Unstable** construct a `Seq` from a bitvec. This may change in the future.
 impl<A: Codec> From<Bv> for Seq<A> {
-    fn from(bv: Bv) -> Self {
+    fn from(mut bv: Bv) -> Self {
+        bv.force_align();
         Seq {
             _p: PhantomData,
             bv,
